@@ -39,7 +39,7 @@ FromSnap(j, cfg) ==
           LET u == j.users[n] IN
           [ host |-> u.host, uname |-> u.uname, real |-> u.real, src |-> u.src,
             modes |-> ToSet(u.modes), away |-> u.away, chans |-> ToSet(u.chans),
-            invited |-> ToSet(u.invited) ]],
+            invited |-> ToSet(u.invited), killable |-> u.killable ]],
       chans |-> [x \in DOMAIN j.chans |->
           LET ch == j.chans[x] IN
           [ members |-> [m \in DOMAIN ch.members |-> ToSet(ch.members[m])],
@@ -75,7 +75,10 @@ StepTags(k) ==
        ELSE IF ~WF(pre) \/ (r.c \notin DOMAIN pre.conns /\ r.cmd.verb # "!open")
        THEN runTags \cup (InvTags(obs) \ InvTags(pre)) \cup {Tag("run", "skipped", "", "")}
        ELSE LET R == Apply(pre, r.c, r.cmd) IN
-            runTags \cup StateTags(R.st, obs) \cup OutTagsFor(r.c, R.out, r.outs) \cup (InvTags(obs) \ InvTags(pre))
+            (* lines for a connection whose client does not read are produced but cannot be observed *)
+            LET stalledC == {d \in DOMAIN pre.conns : pre.conns[d].stalled} \cup {d \in DOMAIN R.st.conns : R.st.conns[d].stalled}
+                expOut == SelectSeq(R.out, LAMBDA m : m.to \notin stalledC)
+            IN runTags \cup StateTags(R.st, obs) \cup OutTagsFor(r.c, expOut, r.outs) \cup (InvTags(obs) \ InvTags(pre))
 
 Report(k, tags) ==
     LET r == Rec[k]
@@ -90,7 +93,8 @@ Report(k, tags) ==
         owners == {P \in AllProps : \E t \in tags2 : Owns(P, ctx, t)}
         skipped == Tag("run", "skipped", "", "") \in tags \/ r.cmd.verb = "RAW"
         R == Apply(pre, r.c, r.cmd)
-        exp == IF skipped THEN <<>> ELSE R.out
+        stalledC == {d \in DOMAIN pre.conns : pre.conns[d].stalled}
+        exp == IF skipped THEN <<>> ELSE SelectSeq(R.out, LAMBDA m : m.to \notin stalledC)
     IN PrintT(<<"MISMATCH", ToJson(
           [ idx |-> k, b |-> r.b, step |-> r.i, c |-> r.c, cmd |-> r.cmd,
             owners |-> SetToSeq(owners),
